@@ -5,7 +5,7 @@
 (* the scope operators of Scope.tla evaluated over                         *)
 (*   - ScopeData: the binary's own DWARF decoded by llvm-dwarfdump         *)
 (*     (tools/c19_dwarf.py): Blocks, Vars, GlobalNames, OptLevel;          *)
-(*   - XData / SessionRef: the recorded native execution X, whose call     *)
+(*   - XData (as in SessionRef): the recorded native execution X, whose call*)
 (*     stack at position j (RefBacktrace) says which activation frame k is;*)
 (*   - raw facts recorded by the driver next to each observation: the      *)
 (*     frame chain from the saved-rbp walk and, for every frame and every  *)
@@ -17,11 +17,19 @@
 (*   idx   position of the real program in X (pc + TICK), 0 = unknown      *)
 (*   fr    the frame the script selected (0 after a stop)                  *)
 (*   locals/args  << <<name, value>> .. >>;  res  << [name, vals, err] >>  *)
-(*   raw[k+1] = << [v, e, val, alt] .. >>  value named by entry e of Vars[v]*)
-(*              in frame k ("unk" = not recoverable), alt = the other      *)
-(*              registers' values for register entries of frame 0          *)
+(*   raw[k+1] = << [v, e, val, alt, up] .. >> value named by entry e of     *)
+(*              Vars[v] in frame k ("unk" = not recoverable), alt = the    *)
+(*              other registers' values for register entries of frame 0,   *)
+(*              up = the same fbreg offset applied to the saved rbp        *)
 (***************************************************************************)
-EXTENDS SessionRef, Scope, ScopeData
+EXTENDS Integers, Sequences, FiniteSets, TLC, Json, IOUtils, XData, Scope, ScopeData
+
+\* the reference execution (XData, see SessionRef.tla): X[j] = [pc, d, ln, st, pe, fn, sk, tk, ext], Stacks[sk] = return
+\* addresses of the active calls, outermost first.  Same definition as SessionRef!RefBacktrace (SessionRef itself is not
+\* extended: its step tables are not needed here and cost seconds of start-up per trace).
+N == Len(X)
+RefBacktrace(j) == LET s == Stacks[X[j].sk] IN
+                   <<X[j].pc>> \o [k \in 1..Len(s) |-> s[Len(s) + 1 - k]]
 
 Rec == IF "TRACE" \in DOMAIN IOEnv THEN ndJsonDeserialize(IOEnv.TRACE) ELSE <<>>
 
@@ -49,6 +57,10 @@ AltVals(e, k, v, n) ==
   LET m == {i \in 1..Len(e.raw[k + 1]) : e.raw[k + 1][i].v = v /\ e.raw[k + 1][i].e = n}
   IN IF m = {} THEN {} ELSE LET a == e.raw[k + 1][CHOOSE i \in m : TRUE].alt IN {a[i].val : i \in 1..Len(a)}
 
+UpVals(e, k, v, n) ==
+  LET m == {i \in 1..Len(e.raw[k + 1]) : e.raw[k + 1][i].v = v /\ e.raw[k + 1][i].e = n}
+  IN IF m = {} THEN {} ELSE {e.raw[k + 1][CHOOSE i \in m : TRUE].up} \ {"unk"}
+
 LocAt(v, pc) == LET ls == Vars[v].locs
                     E  == {n \in 1..Len(ls) : ls[n].lo <= pc /\ pc < ls[n].hi}
                 IN IF E = {} THEN 0 ELSE MinOf(E)
@@ -69,7 +81,9 @@ Shown(x) == OptLevel = 0 \/ x \notin {"none", "other"}
 OtherActs(e, k, pc) == {k2 \in 0..(Len(e.chain) - 1) : k2 # k /\ FnAt(Blocks, e.chain[k2 + 1]) = FnAt(Blocks, pc)}
 
 ValueClass(e, k, pc, cands, x) ==
-  IF \E v \in cands : \E k2 \in OtherActs(e, k, pc) : x \in RawSet(e, k2, v) THEN "wrong_frame_value"
+  \* frame k > 0 read with the registers of frame k+1: the slot offset applied to the caller's frame base
+  IF k > 0 /\ \E v \in cands : LocAt(v, pc) # 0 /\ x \in UpVals(e, k, v, LocAt(v, pc)) THEN "value_from_callers_frame_base"
+  ELSE IF \E v \in cands : \E k2 \in OtherActs(e, k, pc) : x \in RawSet(e, k2, v) THEN "wrong_frame_value"
   ELSE IF \E v \in cands : IsRegAt(v, pc) /\ x \in AltVals(e, k, v, LocAt(v, pc)) THEN "wrong_register"
   ELSE "wrong_value"
 
@@ -124,6 +138,8 @@ ResVerdicts(e, k, pc) ==
                 IF Len(q.vals) = 1 /\ (~Shown(x) \/ want = "unk" \/ want = x) THEN {}
                 ELSE LET cls ==
                            IF \E u \in SV \ {r} : Exp(e, k, u, pc) = x THEN "shadowed_name_resolves_to_outer"
+                           ELSE IF k > 0 /\ \E u \in SV : LocAt(u, pc) # 0 /\ x \in UpVals(e, k, u, LocAt(u, pc))
+                                  THEN "value_from_callers_frame_base"
                            ELSE IF \E u \in 1..Len(Vars) : /\ Vars[u].name = n /\ Vars[u].kind = "local" /\ u \notin SV
                                                            /\ Blocks[Vars[u].block].fn = FnAt(Blocks, pc) /\ x \in RawSet(e, k, u)
                                   THEN OutCls(Culprit(n, "local", pc), pc)
